@@ -12,6 +12,24 @@ A = lib()
 from anytree import AnyNode, LightNodeMixin, Node, NodeMixin, SymlinkNode, SymlinkNodeMixin  # noqa: E402
 from anytree.node.exceptions import LoopError, TreeError  # noqa: E402
 
+class InjectedAssertion(AssertionError):
+    """A hook that vetoes with ``assert`` (harness-raised, not an internal assertion of the library)."""
+
+
+class InjectedValue(ValueError):
+    pass
+
+
+class InjectedRuntime(RuntimeError):
+    pass
+
+
+class InjectedTree(TreeError):
+    """A validating hook that refuses with a TreeError subclass of its own."""
+
+
+INJECTED_CLASSES = {"Injected": Injected, "AssertionError": InjectedAssertion, "ValueError": InjectedValue, "RuntimeError": InjectedRuntime, "TreeError": InjectedTree}
+
 PRE_KINDS = ("pre_detach", "pre_attach", "pre_detach_children", "pre_attach_children")
 POST_KINDS = ("post_detach", "post_attach", "post_detach_children", "post_attach_children")
 KINDS = PRE_KINDS + POST_KINDS
@@ -233,6 +251,23 @@ class FalsyLM(Hooks, LightNodeMixin):
         return "FalsyLM(%s)" % (self.name,)
 
 
+class FalsyNMB(Hooks, NodeMixin):
+    """NodeMixin twin of FalsyLM: always falsy, also as a parent that has children."""
+
+    def __init__(self, name, key=0):
+        self.name = name
+        self.key = key
+
+    def __len__(self):
+        return len(self.children)
+
+    def __bool__(self):
+        return False
+
+    def __repr__(self):
+        return "FalsyNMB(%s)" % (self.name,)
+
+
 class PropNode(Hooks, Node):
     """A target that implements one of its attributes through the class: a property with setter."""
 
@@ -266,7 +301,8 @@ class FalsyNode(Hooks, Node):
         return False
 
 
-FAMILIES = ("NM", "LM", "Node", "AnyNode", "MIX", "VALNM", "VALLM", "FALSY", "FALSYLM", "FALSYANY", "FALSYNODE", "ITER")
+FAMILIES = ("NM", "LM", "Node", "AnyNode", "MIX", "VALNM", "VALLM", "FALSY", "FALSYLM", "FALSYNMB", "FALSYANY", "FALSYNODE", "ITER")
+LOCKSTEP_PAIRS = {"NM": ("NM", "LM"), "VALNM": ("VALNM", "VALLM"), "FALSYNMB": ("FALSYNMB", "FALSYLM")}
 
 
 def base_family(family):
@@ -290,6 +326,8 @@ def make_nodes(family, k):
         return [IterNM("n%d" % i, i % 2) for i in range(k)]
     if family == "FALSYLM":
         return [FalsyLM("n%d" % i, i % 2) for i in range(k)]
+    if family == "FALSYNMB":
+        return [FalsyNMB("n%d" % i, i % 2) for i in range(k)]
     if family == "FALSYANY":
         return [FalsyAny(id="n%d" % i, name="n%d" % i) for i in range(k)]
     if family == "FALSYNODE":
@@ -329,6 +367,8 @@ class Plan:
         self.spec = tuple(spec) if spec else ("none",)
         t = self.spec[0]
         self.t = t
+        # optional last element: the class of the exception the hook raises (default: Injected)
+        self.exc = INJECTED_CLASSES[self.spec[-1]] if isinstance(self.spec[-1], str) and self.spec[-1] in INJECTED_CLASSES and len(self.spec) > 2 else Injected
         if t == "once":
             self.idx = frozenset([self.spec[1]])
         elif t == "multi":
@@ -408,9 +448,12 @@ class Rec:
             if victims:
                 self.evicted.append((i, victims[0]))
                 self.nodes[victims[0]].parent = None
+        elif snap is not None and isinstance(nl, int):
+            # a validating hook also reads derived attributes of its node (values must not be memoised from here)
+            node.root, node.depth, node.height  # noqa: B018
         if self.plan.fires(i, kind, nl):
             self.faults.append((i, kind, nl))
-            raise Injected("%s@%d" % (kind, i))
+            raise self.plan.exc("%s@%d" % (kind, i))
 
 
 def materialise(family, ch):
@@ -485,7 +528,7 @@ def outcome_of(exc):
         return "LoopError"
     if t is TreeError:
         return "TreeError"
-    if t is Injected:
+    if t is Injected or t in (InjectedAssertion, InjectedValue, InjectedRuntime, InjectedTree):
         return "Injected"
     if t in (TypeError, RecursionError, AssertionError):
         return t.__name__
